@@ -20,6 +20,8 @@ structure Obs where
   multi : List Nat
   /-- ids whose `QueueMessage` call had returned before the disconnect request was made -/
   before : List Nat
+  /-- ids whose `QueueMessage` call started after `Disconnect()` had returned -/
+  after : List Nat
   leak : Bool
   deriving Repr
 
@@ -72,6 +74,9 @@ def unexplained (o : Obs) : Option String :=
       some "done-counts-not-producible"
     else if !(o.before.all (fun x => s.sentBefore.contains x)) then
       some "queued-before-disconnect-not-producible"
+    else if !(o.after.all (fun x => !o.lost.contains x && !o.written.contains x)) then
+      -- `check` with the flag set signals at once and never queues
+      some "called-after-disconnect-not-signalled-at-once"
     else if !(o.lost.all (fun x => o.ids.contains x)) || !(o.before.all (fun x => o.ids.contains x)) then
       some "unknown-id"
     else none
